@@ -85,6 +85,11 @@ Definition with_paths (e : layer_env) (d : fs) : layer_env :=
 
 Definition ok_or_bp (r : tres) : bool := match r with TOk _ _ _ => true | TErr EBuildpack => true | TErr _ => false end.
 
+(* the specified handling (repairs on, CNB tables) on the observed pre-state *)
+Definition spec_handle :=
+  t_handle true true spec_sbom_suffixes spec_beh_order spec_writer_table spec_reader_table spec_no_ext
+           spec_layer_paths spec_sep true 3.
+
 Definition handle_holds (names : list bytes) (probes : probe_set) (n : bytes) (L : tlayer) (pre post : store)
            (r : tres) (calls : list tcall) : bool :=
   let cls := classify_pre (tl_m L) (lget n pre) in
@@ -92,7 +97,9 @@ Definition handle_holds (names : list bytes) (probes : probe_set) (n : bytes) (L
   others_same names n pre post &&
   (negb (ok_or_bp r) || tcalls_same calls (map (proj_tcall (tl_m L)) ecalls)) &&
   match r with
-  | TErr _ => true
+  | TErr _ =>
+      (* the call must not fail where the specified handling succeeds *)
+      match snd (spec_handle L n pre) with Ok _ => false | Err _ => true end
   | TOk ty x outs =>
       let l' := lget n post in
       otypes_eqb ty (Some (tl_types L)) &&
